@@ -6,6 +6,20 @@ from harness import common, gen, api, adapter
 LEVEL = "proof"
 
 
+def compressible_airfoil(a0):
+    """symmetric section whose lift depends on Mach (Prandtl-Glauert) and Reynolds number"""
+    def CL(**kw):
+        al, Re, M = kw.get("alpha", 0.0), kw.get("Rey", 1e6), kw.get("Mach", 0.0)
+        return a0 * al * (1.0 + 0.05 * np.log10(np.asarray(Re, dtype=float) / 1e6)) / np.sqrt(1.0 - np.asarray(M, dtype=float) ** 2)
+
+    def CD(**kw):
+        return 0.006 + 0.01 * CL(**kw) ** 2
+
+    def Cm(**kw):
+        return 0.0 * CL(**kw)
+    return {"type": "functional", "CL": CL, "CD": CD, "Cm": Cm, "geometry": {"NACA": "0010"}}
+
+
 def run(chk):
     MX = common.setup_env()
     chk.proofs(extra_trusted=["np.linalg.solve is assumed regular at the iterate (invertible Jacobian); uniqueness of the nonlinear solution and the quadratic "
@@ -64,8 +78,26 @@ def run(chk):
                 # mode "fixed-geometry-cambered": as the first, but with the sections' zero-lift angles shrinking with the other angles (the sweep
                 # correction of the section lift enters the linear system through them);
                 # mode "all-angles" (generated solver options): sweep, dihedral, twist, zero-lift angles and the state angles all shrink together.
-                mode = ("fixed-geometry", "all-angles", "fixed-geometry-cambered")[(it // 4) % 3]
+                # mode "fixed-geometry-compressible": as the first, on wings swept by 30 degrees whose sections depend on Mach and Reynolds number, at M = 0.5.
+                mode = ("fixed-geometry", "all-angles", "fixed-geometry-cambered", "fixed-geometry-compressible")[(it // 4) % 4]
                 chk.count("linear-mode=" + mode)
+                # the linear solver on a scene with a history: the same answer as on a fresh scene in the same state
+                sdh = copy.deepcopy(sd)
+                sdh["solver"] = {"type": "linear"}
+                hist_sc = gen.build_scene(MX, sdh, acs)
+                hist_sc.solve_forces()
+                acs_h = []
+                for nm, ac, st, cs in acs:
+                    st_h = {"velocity": 90.0, "alpha": rng.uniform(-3, 7), "beta": rng.uniform(-5, 5), "angular_rates": [rng.uniform(-0.2, 0.2), 0.05, -0.03]}
+                    for key in ("position", "orientation"):
+                        if key in st:
+                            st_h[key] = copy.deepcopy(st[key])
+                    hist_sc.set_aircraft_state(state=copy.deepcopy(st_h), aircraft=nm)
+                    acs_h.append((nm, ac, st_h, cs))
+                bad_h = api.compare(api.solve(hist_sc), api.solve(gen.build_scene(MX, sdh, acs_h)), rtol=2e-7, atol=2e-8)
+                if bad_h:
+                    chk.violation("linear:history", dict(kind="solver-path", what="the linear solver on a scene that was solved in another state before differs from a fresh scene",
+                                                         scene=sdh, aircraft=acs_h, first_state=[a[2] for a in acs], differences=bad_h[:8]))
                 SC = (1.0, 0.5, 0.25, 0.125, 0.0625)
                 errs = []
 
@@ -90,13 +122,23 @@ def run(chk):
                                     if key in w:
                                         w[key] = scaled(w[key], scale)
                         for af in ac2["airfoils"].values():
-                            af["aL0"] = 0.0 if mode == "fixed-geometry" else af["aL0"] * scale      # (cambered: the zero-lift angle is one of the angles)
+                            af["aL0"] = 0.0 if mode in ("fixed-geometry", "fixed-geometry-compressible") else af["aL0"] * scale      # (cambered: the zero-lift angle is one of the angles)
+                        if mode == "fixed-geometry-compressible":
+                            ac2["airfoils"] = {k_: compressible_airfoil(6.0 + 0.1 * j_) for j_, k_ in enumerate(ac2["airfoils"])}
+                            for w in ac2["wings"].values():
+                                w.pop("quarter_chord_locs", None)
+                                w.setdefault("semispan", 3.0)
+                                w["sweep"] = 30.0
+                                w.pop("ll_offset", None)
                         acs_s.append((nm, ac2, st2, {}))
                     sdl = copy.deepcopy(sd)
                     sdn = copy.deepcopy(sd)
                     if mode.startswith("fixed-geometry"):
                         sdl["solver"] = {"type": "linear"}
                         sdn["solver"] = {"type": "nonlinear"}
+                        if mode == "fixed-geometry-compressible":
+                            for s_ in (sdl, sdn):
+                                s_["scene"]["atmosphere"]["speed_of_sound"] = 200.0          # V = 100: M = 0.5
                     else:
                         sdl["solver"]["type"] = "linear"
                         sdn["solver"]["type"] = "nonlinear"
